@@ -219,6 +219,76 @@ def degenerate_cases(tier):
             continue
 
 
+def collision_cases(tier, info):
+    """HASH-COLLISION family (harness/hashcollide.py): formulas whose sub-formulas have DIFFERENT free-symbol sets / atom
+    sets / constants with the SAME Python hash (constructed at run time, verified against hash(); the family records
+    itself as skipped when this Python's hash functions are not the modelled ones)."""
+    from fractions import Fraction
+    from pysmt.typing import INT, REAL, BOOL, FunctionType
+    from . import hashcollide as hc
+    env = Environment()
+    m = env.formula_manager
+    n = 110 if tier == "quick" else 260
+    syms = [m.Symbol("hv%d" % i) for i in range(n)]
+    xs = [m.Symbol("hx%d" % i, INT) for i in range(n)]
+    atoms = [m.GE(x, m.Int(0)) for x in xs]
+    p_sym = hc.frozenset_pairs(syms, want=2)
+    p_int = hc.frozenset_pairs(xs, want=1)
+    p_atom = hc.frozenset_pairs(atoms, want=1)
+    ip, fp, mp = hc.int_pair(), hc.fraction_pair(), hc.mixed_pair()
+    info.update({"symbol_set_pairs": len(p_sym), "int_symbol_set_pairs": len(p_int), "atom_set_pairs": len(p_atom),
+                 "int_pair": ip is not None, "fraction_pair": fp is not None, "mixed_pair": mp is not None,
+                 "set_size": [len(a) for a, _ in p_sym + p_int + p_atom]})
+    if not (p_sym or p_int or p_atom or ip or fp):
+        info["skipped"] = "no colliding objects could be built: the hash functions of this Python are not the modelled ones"
+    pr = m.Symbol("hpr", FunctionType(BOOL, [INT]))
+    for A, B in p_sym + p_atom:
+        oa, ob = m.Or(A), m.Or(B)
+        for f in (m.And(oa, ob), m.Or(m.And(A), m.And(B)), m.Iff(oa, m.And(B)), m.And(ob, oa), m.And(oa, m.Not(ob), A[0]),
+                  m.And(m.Or(B[1:] + A[:1]), oa, ob), m.Implies(m.And(oa, ob), m.Or(A + B))):
+            yield env, f, "hashcollide:sets"
+        bound = [v for v in (A[:2] + B[:1]) if v.is_symbol()]
+        if bound:
+            yield env, m.ForAll(bound, m.And(oa, ob)), "hashcollide:sets-under-binder"
+            yield env, m.And(m.Exists(bound, oa), ob), "hashcollide:sets-under-binder"
+    for A, B in p_int:
+        sa, sb = m.Plus(A), m.Plus(B)
+        for f in (m.And(m.LE(sa, m.Int(0)), m.LE(sb, m.Int(0))), m.Equals(sa, sb), m.Function(pr, [m.Plus(sa, sb)]),
+                  m.And(m.Function(pr, [sa]), m.Function(pr, [sb])), m.Exists(A[:2], m.LT(sa, sb))):
+            yield env, f, "hashcollide:int-sets"
+    x, r = m.Symbol("hcx", INT), m.Symbol("hcr", REAL)
+    if ip:
+        a, b = ip
+        for f in (m.Equals(m.Plus(x, m.Int(a)), m.Int(b)), m.And(m.Equals(x, m.Int(a)), m.Not(m.Equals(x, m.Int(b)))),
+                  m.LT(m.Int(a), m.Int(b)), m.BVULT(m.BV(a, 128), m.BV(b, 128)), m.Equals(m.BVAdd(m.BV(a, 128), m.BV(b, 128)), m.BV(a, 128)),
+                  m.Equals(m.Select(m.Array(INT, m.Int(a), {m.Int(a): m.Int(b), m.Int(b): m.Int(0)}), x), m.Int(b))):
+            yield env, f, "hashcollide:int-constants"
+    if fp:
+        a, b = fp
+        for f in (m.Equals(m.Plus(r, m.Real(a)), m.Real(b)), m.LT(m.Real(a), m.Real(b)), m.And(m.LE(r, m.Real(a)), m.LE(m.Real(b), r))):
+            yield env, f, "hashcollide:real-constants"
+    if mp:
+        a, b = mp
+        yield env, m.LE(m.ToReal(m.Plus(x, m.Int(b))), m.Plus(r, m.Real(a))), "hashcollide:mixed-constants"
+        yield env, m.And(m.Equals(m.Real(Fraction(b)), m.Real(a)), m.Equals(x, m.Int(b))), "hashcollide:mixed-constants"
+
+
+def flag_cases(tier):
+    """ENVIRONMENT-FLAGS family (harness/envflags.py): the analyses under every value of the Environment's flags, with the
+    flags flipped between building and analysing."""
+    from . import envflags
+    for fb in envflags.combos():
+        for fa in envflags.combos():
+            if tier == "quick" and (fb["allow_empty_var_names"] or fa["allow_empty_var_names"]):
+                continue            # quick: the two flags that code on the analysed paths reads, 4 x 4 combinations
+            env = Environment()
+            envflags.set_flags(env, fb)
+            fs = envflags.division_formulas(env)
+            envflags.set_flags(env, fa)
+            for f in fs:
+                yield env, f, "flags:built-%s:analysed-%s" % (envflags.label(fb), envflags.label(fa))
+
+
 def check_types(chk, env, f, fam):
     """get_types in both modes against the definition, against each other, and the stated order."""
     want = ref_types(f)
@@ -343,10 +413,24 @@ def run(tier):
             batch.append(f)
             yield e, f, fam
         recheck(last, batch)
-    nshape = ndegen = 0
+        chk.note("random, sort-shape and degenerate-list families analysed")
+        batch = []
+        for e, f, fam in collision_cases(tier, hinfo):
+            batch.append(f)
+            yield e, f, fam
+        if batch:
+            recheck(e, batch)
+        chk.note("hash-collision family analysed")
+        for x in flag_cases(tier):
+            yield x
+        chk.note("environment-flags family analysed")
+    nshape = ndegen = ncoll = nflag = 0
+    hinfo = {}
     for env, f, fam in inputs():
         nshape += fam.startswith("sortshape")
         ndegen += fam.startswith("degenerate")
+        ncoll += fam.startswith("hashcollide")
+        nflag += fam.startswith("flags")
         fvs = env.fvo.get_free_variables(f)
         try:
             ats = env.ao.get_atoms(f)
@@ -361,7 +445,9 @@ def run(tier):
         # ---- property-level oracle on the implementation
         rfv = ref_free_vars(f)
         if set(fvs) != rfv:
-            chk.violation({"kind": "input", "what": "get_free_variables differs from the definition", "formula": f.serialize(),
+            chk.violation({"kind": "input", "what": "get_free_variables differs from the definition", "formula": f.serialize(), "family": fam,
+                           "note": ("hashcollide: the symbols hv0.. / hx0.. are created in this order in a fresh Environment and the two sets are "
+                                    "computed by harness/hashcollide.frozenset_pairs (equal frozenset hash)") if fam.startswith("hashcollide") else "",
                            "reported": sorted(map(str, fvs)), "definition": sorted(map(str, rfv))}, key="fv:" + str(tocoq.skey(f))[:200])
         if qf != ref_is_qf(f):
             chk.violation({"kind": "input", "what": "is_qf differs from the definition", "formula": f.serialize()}, key="qf:" + str(tocoq.skey(f))[:200])
@@ -401,7 +487,8 @@ def run(tier):
     files = termcases.write(chk.dir, "c12", "From PySMT.models Require Import TypeChecker Oracles OraclesCustom.",
                             "term * list var * option (list term) * bool * list ty * list ty * list nat", ok_def, cases, shard=60)
     bad, errs = termcases.run(files)
-    chk.cov["correspondence"] = {"cases": len(cases), "sort_shape_cases": nshape, "degenerate_list_cases": ndegen, "disagreements": len(bad), "case_file_errors": len(errs),
+    chk.cov["correspondence"] = {"cases": len(cases), "sort_shape_cases": nshape, "degenerate_list_cases": ndegen, "hash_collision_cases": ncoll, "hash_collision_family": hinfo,
+                                 "environment_flag_cases": nflag, "disagreements": len(bad), "case_file_errors": len(errs),
                                  "node_types_covered": len(ops_seen), "examples": [meta[i].serialize()[:300] for i in bad[:5]]}
     for e in errs[:2]:
         chk.note("case file error: " + e["error"][-400:])
@@ -419,7 +506,9 @@ def run(tier):
     return chk.finish(TRUSTED, ASSUME,
                       "random well-typed formulas of all theories with sharing (gen/formulas.py), fresh Environment every 100; SORT-SHAPE family "
                       "(user sort S / P(S) / Q(Int,S) as the only occurrence under every chain of Array-index / Array-element / parametric wrappers "
-                      "of depth 0..3 x 8 carriers), DEGENERATE-LISTS family (every binder list of length 1..3 over four variables, repetitions included, x every "
+                      "of depth 0..3 x 8 carriers), HASH-COLLISION family (different symbol / atom sets and different Int / Real / BV constants with "
+                      "equal Python hash, built at run time by harness/hashcollide.py), ENVIRONMENT-FLAGS family (every value of the flags at build and "
+                      "analysis time), DEGENERATE-LISTS family (every binder list of length 1..3 over four variables, repetitions included, x every "
                       "free set of the body; repeated arguments of n-ary operators / functions / array values; the same through the parser), get_types compared in both modes (default, custom_only) with the model and the definition; "
                       "distinct = distinct structural keys with at least one operator application")
 
